@@ -58,7 +58,37 @@ def c13(run):
         extra_assumptions=["the spy http.ResponseWriter records faithfully what reaches it", "hooks only set headers and read Status()"])
 
 
-PROPS = {"C13": c13}
+# ============================================================== routing core
+RT_TRACE_CFG = TRACE_CFG % ""
+
+
+def rt_cfg(family, max_routes, max_segs, max_hdr=0, dev=(), emit=True, invs=("DispatchIff", "TreeSorted", "AcceptIff", "RoundTrip")):
+    return ("SPECIFICATION Spec\nCONSTANTS\n Family = \"%s\"\n MaxRoutes = %d\n MaxSegs = %d\n MaxHdrOps = %d\n Dev = %s\n EmitCases = %s\n"
+            % (family, max_routes, max_segs, max_hdr, vlib.tla_set(dev), "TRUE" if emit else "FALSE")
+            + "".join("INVARIANT %s\n" % i for i in invs) + "CONSTRAINT EmitCase\nCHECK_DEADLOCK FALSE\n")
+
+
+def rt_family(run, label, family, max_routes, max_segs, max_hdr=0, invs=("DispatchIff", "TreeSorted", "AcceptIff", "RoundTrip"), sample=16):
+    r = run.model_check("RouteTreeMC", rt_cfg(family, max_routes, max_segs, max_hdr, invs=invs), name="RT_" + label,
+                        want_cases=True, heap="24g")
+    return run.conformance(label, "tree", r["cases_file"], "RouteTreeTrace", RT_TRACE_CFG,
+                           replay_args=["--univ", r["univ_file"]], env={"VERIF_SAMPLE": str(sample)})
+
+
+def rt_negative(run, family, dev, inv="DispatchIff", max_routes=2, max_segs=2, max_hdr=0):
+    run.tlc("RouteTreeMC", rt_cfg(family, max_routes, max_segs, max_hdr, dev=[dev], emit=False, invs=(inv,)),
+            name="RT_neg_" + dev, expect_violation=inv)
+
+
+def c01(run):
+    quick = run.tier == "quick"
+    run.build_harness()
+    rt_negative(run, "prio", "LIFO")
+    rt_family(run, "prio_2x2", "prio", 2, 2)
+    return run.finish(rule="TODO")
+
+
+PROPS = {"C13": c13, "C01": c01}
 
 
 def main():
@@ -79,7 +109,10 @@ def main():
         return PROPS[a.prop](run)
     except Infra:
         import shutil
-        shutil.rmtree(run.work, ignore_errors=True)
+        if os.environ.get("VERIF_KEEP"):
+            log("kept work dir", run.work)
+        else:
+            shutil.rmtree(run.work, ignore_errors=True)
         raise
 
 
